@@ -1,3 +1,6 @@
 import Pylx.Basic
 import Pylx.Node
 import Pylx.LineNo
+import Pylx.PState
+import Pylx.Tok
+import Pylx.TokDrv
